@@ -96,6 +96,57 @@ def run(pid, tier, seed, replay):
         if "WARNING: DATA RACE" in txt:
             rep.reject("data race reported by the race detector (mcrew timers stress)", [], {"property": pid, "race": txt[-4000:]})
         runs.append(("stress-race", out))
+    # (b) the single-loop crew's timers (sio), through a real crew's timers machine
+    sdrv = vlib.build_driver("siotimerdrv", wd)
+    sin = os.path.join(wd, "sio_sched_in.ndjson")
+    import random
+    pick = scheds if tier == "thorough" else random.Random(seed).sample(scheds, min(240, len(scheds)))
+
+    def sshard(i):
+        part = pick[i::16]
+        if not part:
+            return None
+        inp = os.path.join(wd, "sio_in_%02d.ndjson" % i)
+        open(inp, "w").write("\n".join(part) + "\n")
+        o = os.path.join(wd, "sio_out_%02d.ndjson" % i)
+        vlib.run([sdrv, "sched", inp, o, "2" if tier == "quick" else "4"], timeout=6000)
+        return o
+    with cf.ThreadPoolExecutor(max_workers=16) as ex:
+        souts = [o for o in ex.map(sshard, range(16)) if o]
+    for mode, nq, nt in (("stress", 40, 400), ("restart", 40, 400)):
+        def sone(i, mode=mode, nq=nq, nt=nt):
+            o = os.path.join(wd, "sio_%s_%02d.ndjson" % (mode, i))
+            vlib.run([sdrv, mode, str((nq if tier == "quick" else nt) // 8), str(seed * 100 + i), o], timeout=6000)
+            return o
+        with cf.ThreadPoolExecutor(max_workers=8) as ex:
+            souts += list(ex.map(sone, range(8)))
+    out = os.path.join(wd, "sio_traces.ndjson")
+    with open(out, "w") as f:
+        k = 0
+        for o in souts:
+            for line in open(o):
+                k += 1
+                c = json.loads(line)
+                c["id"] = k
+                f.write(json.dumps(c) + "\n")
+    runs.append(("sio", out))
+    # race detector as a sensor: sio timers together with the crew loop
+    srace = vlib.build_driver("siotimerdrv", wd, race=True)
+    o = os.path.join(wd, "sio_race_stress.ndjson")
+    e = dict(os.environ, GORACE="halt_on_error=0")
+    p = vlib.run([srace, "stress", "12" if tier == "quick" else "60", str(seed + 3), o], env=e, timeout=3000, check=False)
+    reports = [r for r in p.stdout.split("==================") if "WARNING: DATA RACE" in r]
+    evs = []
+    for r in reports:
+        mine = "sio-timer-goroutine-vs-crew-loop" if "sio.(*TimerEntry).run" in r else "other"
+        frames = sorted(set(l.strip().split("(")[0] for l in r.splitlines() if "github.com/Comcast/sheens" in l and l.startswith("  ")))
+        evs.append({"ev": "race", "sig": mine, "frames": frames[:8], "seq": len(evs) + 1, "t": 0})
+    if evs:
+        rp = os.path.join(wd, "sio_race_log.ndjson")
+        open(rp, "w").write(json.dumps({"id": 1, "kind": "race-log", "impl": "sio", "events": evs, "realised": True, "outcome": "returned",
+                                        "raw": json.dumps({"race_reports": len(evs)}), "short": 30, "long": 3600000}) + "\n")
+        runs.append(("sio-race", rp))
+    log("  race detector (sio timers + crew loop): %d report(s)" % len(evs))
     judged, stats_all, samples = 0, {}, []
     for name, path in runs:
         jd = vlib.fresh_dir(pid, "judge_" + name)
@@ -107,12 +158,12 @@ def run(pid, tier, seed, replay):
             stats_all[name + "." + k] = v
         for b in bad:
             c = b["case"]
-            rep.reject("%s (mcrew): history rejected at event %s: %s" % (name, b.get("stuckAt"), c["raw"][:300]), b.get("sigs", []),
-                       {"property": pid, "labels": sorted(b["c17"]), "impl": "mcrew", "source": name, "stuckAt": b.get("stuckAt"), "case": c})
+            rep.reject("%s: %s: history rejected at event %s: %s" % (name, ",".join(sorted(b["c17"])), b.get("stuckAt"), c["raw"][:300]), b.get("sigs", []),
+                       {"property": pid, "labels": sorted(b["c17"]), "impl": c.get("impl"), "source": name, "stuckAt": b.get("stuckAt"), "case": c})
         with open(path) as f:
             c = json.loads(f.readline())
-            samples.append({"source": name, "impl": "mcrew", "events": c["events"][:10]})
-        log("  judged %s (mcrew): %d histories, %d rejected; %s" % (name, t["lines"], len(bad), stats))
+            samples.append({"source": name, "impl": c.get("impl"), "events": c["events"][:10]})
+        log("  judged %s: %d histories, %d rejected; %s" % (name, t["lines"], len(bad), stats))
     rc = rep.finish()
     vlib.write_evidence(pid, tier, seed, {
         "states": max(1, dist), "transitions": max(1, gen), "traces_validated_against_impl": judged, "samples": samples,
